@@ -15,7 +15,7 @@ func init() {
 		Decides: "(R31.1) the printed form is type ++ \"-\" ++ version and the parser cuts at the leftmost match of the separator pattern; a valid Type cannot contain a match of that pattern (Type.IsValid rejects it, its last character is not '-') and every match of the pattern starts with \"-v\" followed by a digit (decided on the pattern constants by enumerating all strings up to length 4 over a 7-letter alphabet); so the leftmost match in a printed hint is the separator; " +
 			"(R31.2) the compatible set replaces the entry of (type, major) only for an incompatible or a higher version and always updates value and hint together; lookup reads exactly set[type][major]; the highest-version-per-type table is replaced only by a higher version; " +
 			"(R31.3) cache coherence: every cached answer is what the uncached lookup answers for that key, and every change of the set purges the cache; the parse cache stores under the parsed string what parseHint returned for it.",
-		NotDecided: "semver ordering and compatibility themselves (third-party); that Version.String() begins with \"v<digit>\" (delegated to golang.org/x/mod/semver through Version.IsValid); a type string that is also a hint string shares one cache key space in CompatibleSet (FindBytTypeString vs FindByString).",
+		NotDecided: "the ordering among prerelease identifiers beyond the structural rules (every difference decides, orientation of each answer); that Version.String() begins with \"v<digit>\" (delegated to golang.org/x/mod/semver through Version.IsValid); a type string that is also a hint string shares one cache key space in CompatibleSet (FindBytTypeString vs FindByString).",
 		Run:        runC31,
 	})
 }
@@ -183,6 +183,73 @@ func runC31(c *Ctx) {
 		c.MP(fn, "the per-type head changes only if the hint was accepted", th, 2, GOk("st.addWithHint(ht, v)"))
 		hh := c.MapUpdatesD(fn, "st.typeheadhints")
 		c.Report(fn, "per-type head value and hint are updated together", fn.Pos(), len(th) == len(hh) && len(th) == 2, fmt.Sprintf("%d / %d", len(th), len(hh)))
+	}
+	// the version order the set relies on ("highest registered version"): mitum's own prerelease compare
+	if fn := c.Need("util.compareVersionPrerelease"); fn != nil {
+		dx, dy := "util.versionNextIdent(φ(a|↺#1)[1:])#0", "util.versionNextIdent(φ(b|↺#1)[1:])#0"
+		for _, r := range Returns(fn) {
+			d := c.D(RetVal(r, 0))
+			one := []ssa.Instruction{r}
+			switch d {
+			case "0":
+				c.MP(fn, "prerelease compare: equal only for equal strings", one, 1, GCmp("a", "==", "b"))
+			}
+		}
+		c.MP(fn, "prerelease compare: a release (no prerelease) is higher than any prerelease", c.ReturnsD(fn, 0, "1"), 1,
+			GCmp("a", "==", "\"\""), GCmp("b", "!=", "\"\""))
+		c.MP(fn, "prerelease compare: a prerelease is lower than the release", c.ReturnsD(fn, 0, "-1"), 1,
+			GCmp("b", "==", "\"\""), GCmp("a", "!=", "\"\""))
+		// inside the loop: once two identifiers differ, every path answers (no fall-through to the next
+		// identifier), and the answer follows the comparison on that path
+		var differ *ssa.If
+		for _, in := range c.condsMatching(fn, "("+dx+" == "+dy+")") {
+			differ = in.(*ssa.If)
+		}
+		if differ == nil {
+			c.Unresolved(fn, "prerelease compare: identifier equality test", "not found")
+		} else {
+			hdr := c.Loops(fn, "*")
+			start := differ.Block().Succs[1]
+			res := reachFromBlock(fn, start, nil)
+			back := false
+			for _, l := range hdr {
+				if res.reached[l.Header.Instrs[len(l.Header.Instrs)-1]] {
+					back = true
+				}
+			}
+			c.Report(fn, "prerelease compare: two different identifiers always decide (no fall-through to the next identifier)", c.InstrPos(differ), !back && len(hdr) >= 1, "")
+			// orientation of each decision
+			for _, t := range []struct {
+				ret   string
+				gates []Gate
+				what  string
+			}{
+				{"-1", []Gate{GCmp("len("+dx+")", "<", "len("+dy+")"), GCmp(dx, "<", dy), GTrue("util.versionIsNum("+dx+")"), GCmp("a", "!=", "\"\"")}, "lower"},
+				{"1", []Gate{GCmp("len("+dx+")", ">", "len("+dy+")"), GCmp(dx, ">=", dy), GFalse("util.versionIsNum("+dx+")"), GCmp("a", "==", "\"\"")}, "higher"},
+			} {
+				var rets []ssa.Instruction
+				for _, r := range c.ReturnsD(fn, 0, t.ret) {
+					if res.reached[r] {
+						rets = append(rets, r)
+					}
+				}
+				c.MP(fn, "prerelease compare: `"+t.what+"` is answered only on a path that compared that way", rets, 2, t.gates...)
+			}
+		}
+	}
+	if fn := c.Need("util.(Version).Compare"); fn != nil {
+		calls := c.CallsTo(fn, "util.compareVersionMainPart")
+		c.Report(fn, "version compare: major, minor, patch in that order, then the prerelease", fn.Pos(), len(calls) == 3 &&
+			c.D(CallArg(calls[0], 0)) == "v.major" && c.D(CallArg(calls[1], 0)) == "v.minor" && c.D(CallArg(calls[2], 0)) == "v.patch" &&
+			c.D(CallArg(calls[0], 1)) == "b.major" && c.D(CallArg(calls[1], 1)) == "b.minor" && c.D(CallArg(calls[2], 1)) == "b.patch", "")
+		c.ArgIs(fn, "version compare: prerelease of the receiver against the argument's", c.CallsTo(fn, "util.compareVersionPrerelease"), 1, 0, "v.prerelease")
+		c.ArgIs(fn, "version compare: prerelease of the receiver against the argument's (second)", c.CallsTo(fn, "util.compareVersionPrerelease"), 1, 1, "b.prerelease")
+	}
+	if fn := c.Need("util.compareVersionMainPart"); fn != nil {
+		c.MP(fn, "number compare: 0 only for equal", c.ReturnsD(fn, 0, "0"), 1, GCmp("a", "==", "b"))
+		c.MP(fn, "number compare: -1 only for lower", c.ReturnsD(fn, 0, "-1"), 1, GCmp("a", "<", "b"))
+		c.MP(fn, "number compare: 1 only for not lower", c.ReturnsD(fn, 0, "1"), 1, GCmp("a", ">=", "b"))
+		c.MP(fn, "number compare: 1 only for not equal", c.ReturnsD(fn, 0, "1"), 1, GCmp("a", "!=", "b"))
 	}
 	// R31.3 --------------------------------------------------------------------------------------
 	hintSetCacheRules(c, "R31.3")
